@@ -293,12 +293,29 @@ func (v *VFS) Rename(oldname, newname string) error {
 type wfile struct {
 	v      *VFS
 	path   string
+	nd     *vnode // the open file itself: a handle follows its file across a rename, as a descriptor does
 	closed bool
+}
+
+// follow re-points the handle's path at the name its file has now (it may have been renamed since it was opened).
+func (w *wfile) follow() {
+	w.v.D.mu.Lock()
+	defer w.v.D.mu.Unlock()
+	if w.nd == nil || w.v.D.nodes[w.path] == w.nd {
+		return
+	}
+	for q, n := range w.v.D.nodes {
+		if n == w.nd {
+			w.path = q
+			return
+		}
+	}
 }
 
 func (w *wfile) Name() string { return w.path }
 
 func (w *wfile) Write(b []byte) (int, error) {
+	w.follow()
 	n, kind, err := w.v.pre("Write", true, Event{"p": w.v.nm(w.path)})
 	defer w.v.P.done("vfs", "Write")
 	if err != nil && kind != "short" {
@@ -321,6 +338,7 @@ func (w *wfile) Write(b []byte) (int, error) {
 }
 
 func (w *wfile) Sync() error {
+	w.follow()
 	n, _, err := w.v.pre("Sync", true, Event{"p": w.v.nm(w.path)})
 	defer w.v.P.done("vfs", "Sync")
 	if err != nil {
@@ -362,9 +380,10 @@ func (v *VFS) TempFile(dir, prefix string) (files.WritableFile, error) {
 	}
 	v.D.tmpN++
 	p := fmt.Sprintf("%s/%s%d", dir, prefix, v.D.tmpN)
-	v.D.nodes[p] = &vnode{}
+	nd := &vnode{}
+	v.D.nodes[p] = nd
 	v.log("TempFile", n, "ok", Event{"p": v.nm(p)})
-	return &wfile{v: v, path: p}, nil
+	return &wfile{v: v, path: p, nd: nd}, nil
 }
 
 func (v *VFS) ReadDirNames(dir string) ([]string, error) {
